@@ -95,7 +95,9 @@ NOTES = {
     "C05-s11": "first missed: several name patterns combined with -s / --endpoints filters",
     "C05-s12": "C05 first missed it (C10 caught it): initial worlds carry log files of a target removed from the workflow — a preview must leave them",
     "C02-s11": "first missed by C02 and C09: the scheduler rejects the k-th submission (C02: nothing downstream of the rejected target is submitted; C09: what the interrupted run did submit names the right prerequisites)",
-    "C02-s12": "changes what a dry run does to the hash file — C05 (previews change nothing) and C18 (records only on accepted submission) report it; C02 is about real runs",
+    "C02-s12": "changes what a dry run does to the hash file — first reported only by C05 and C18; C02 now has a preview-differential family (the real run after any prefix of previews submits what it submits without them, hashing on) and reports it itself",
+    "C02-s14": "C02 first missed it (C08 caught it): Slurm reports a user-cancelled job as `CANCELLED by <uid>`; C02 now has a CLI history family (run, dependencies complete, X's outputs written, X cancelled/failed/timed out, forgotten by squeue, run again) against the reference plan",
+    "C12-s13": "adds a `cores` option to the pool protocol; reported through the CLI-level local family (the pool answers with something gwf cannot decode)",
     "C13-s12": "first missed: the pool is shut down (Scheduler.shutdown) while one task runs, one waits for a core and one waits for a dependency",
     "C01-s11": "first missed: real files dated far in the future through the CLI (the function-level family pre-fills the cache and never stats)",
     "C04-s11": "C04 first missed it (C01 caught it): a source file dated exactly the epoch / before it among the real-file-system input kinds",
